@@ -158,6 +158,16 @@ class SymWorld(BaseWorld):
     def sec_of(self, t):
         return t.sec
 
+    def kind_of(self, a):
+        """numpy dtype kind of a state array: b, i, f, M (datetime), m, O (objects, e.g. text)"""
+        if isinstance(a, self.np.SA):
+            if a.a.size and all(isinstance(x, self.np.DT) for x in a.a.ravel()):
+                return "M"
+            if a.a.size and any(isinstance(x, str) for x in a.a.ravel()):
+                return "O"
+            return a.kind
+        return rnp.asarray(a).dtype.kind
+
     def is_fill(self, x):
         return isinstance(x, self.stubs.Masked) or x is FILL
 
@@ -377,6 +387,10 @@ class RealWorld(BaseWorld):
         if isinstance(t, rnp.timedelta64):
             return int(t / rnp.timedelta64(1, "s"))
         return int((rnp.datetime64(t, "s") - rnp.datetime64(0, "s")) / rnp.timedelta64(1, "s"))
+
+    def kind_of(self, a):
+        k = rnp.asarray(a).dtype.kind
+        return {"u": "i", "U": "O", "S": "O"}.get(k, k)
 
     def is_fill(self, x):
         return x is FILL
